@@ -225,7 +225,8 @@ def _abort(ck, repo):
     ck.ob("build_execution_context builds a context only without errors", ok, b, ctor or b.node, construct="abort:context-built")
     ext = [c for c in bv.calls("extend") if unparse(c.func.value) == "errors"]
     cv = bv.maybe_call("coerce_variables")
-    ok = cv is not None and len(ext) == 1 and unparse(ext[0].args[0]) == "variable_errors"
+    ok = cv is not None and len(ext) == 1 and unparse(ext[0].args[0]) == "variable_errors" and set(bv.conditions(ext[0])) <= {("operation", "T"), ("variable_errors", "T")} and \
+        ("variable_errors", "F") not in bv.conditions(ext[0])
     st = bv.stmt_of(cv) if cv is not None else None
     ok = ok and isinstance(st, ast.Assign) and unparse(st.targets[0]) == "(variable_values, variable_errors)"
     ck.ob("build_execution_context adds every variable coercion error to the errors that abort the request", ok, b, ext[0] if ext else b.node,
@@ -235,6 +236,12 @@ def _abort(ck, repo):
     kw = kwargs(ctor) if ctor is not None else {}
     ck.ob("the execution context carries the coerced variable values", unparse(kw.get("variable_values")) == "variable_values", b, ctor or b.node,
           construct="abort:coerced-values")
+    pp = b.positional_params
+    want = {"schema": pp[0], "fragments": "fragments", "operation": "operation", "context": pp[3], "root_value": pp[2], "variable_values": "variable_values"}
+    ck.ob("the execution context carries this request's schema, fragments, selected operation, context and root value", {k: unparse(v) for k, v in kw.items()} == want, b, ctor or b.node,
+          construct="abort:context-operands", detail=str({k: unparse(v) for k, v in kw.items()}))
+    okr = [r for r in rets if isinstance(r.value, ast.Tuple) and len(r.value.elts) == 2 and r.value.elts[0] is ctor and unparse(r.value.elts[1]) == "None"]
+    ck.ob("build_execution_context returns (context, None) otherwise - two returns in all", len(okr) == 1 and len(rets) == 2, b, okr[0] if okr else b.node, construct="abort:context-return")
     for fn, callee in (("execute", "execute_operation"), ("create_source_event_stream", "subscribe")):
         f = repo.func("tartiflette/execution/execute.py", fn)
         fv = FuncView(f)
